@@ -5,6 +5,8 @@
 import Lean.Data.Json
 import Kust.Wire
 import Kust.Fns
+import Kust.Res
+import Kust.Gen.Lists
 open Lean Kust
 
 def pairJ (a : Node × Option Node) : Json :=
@@ -36,9 +38,57 @@ def runFns (op : String) (a : Json) : Except String Json := do
     return outToJson pairJ (Fns.elementSetter keys vals e doc)
   | _ => throw s!"unknown fns op {op}"
 
+def gvkOfJson (j : Json) : Except String Res.Gvk := do
+  return ⟨← (j.getObjValD "group").getStr?, ← (j.getObjValD "version").getStr?, ← (j.getObjValD "kind").getStr?⟩
+
+def idOfJson (j : Json) : Except String Res.ResId := do
+  return ⟨← gvkOfJson j, ← (j.getObjValD "name").getStr?, ← (j.getObjValD "ns").getStr?⟩
+
+def idToJson (i : Res.ResId) : Json :=
+  Json.mkObj [("group", i.gvk.group), ("version", i.gvk.version), ("kind", i.gvk.kind), ("name", i.name), ("ns", i.ns)]
+
+def strsJ (l : List String) : Json := Json.arr (l.map Json.str).toArray
+
+/-- cluster-scope predicate of a case: the harness sends the kinds it asked the real code about -/
+def csOfJson (j : Json) : Res.Gvk → Bool := fun g =>
+  match j.getObjVal? (g.group ++ "/" ++ g.version ++ "/" ++ g.kind) with
+  | .ok (Json.bool b) => b
+  | _ => false
+
+def runRes (op : String) (a : Json) : Except String Json := do
+  let cs := csOfJson (a.getObjValD "cs")
+  match op with
+  | "append" =>
+    let ids ← (← (a.getObjValD "ids").getArr?).toList.mapM idOfJson
+    return outToJson (fun m => Json.arr (m.map idToJson).toArray) (Res.appendAll cs [] ids)
+  | "layers" =>
+    let id ← idOfJson (a.getObjValD "id")
+    let ls ← (← (a.getObjValD "layers").getArr?).toList.mapM fun l => do
+      return ({ ns := ← (l.getObjValD "ns").getStr?, pre := ← (l.getObjValD "pre").getStr?,
+                suf := ← (l.getObjValD "suf").getStr? } : Res.Layer)
+    let skip : String → Bool := fun k => Gen.prefixSkipKinds.contains k
+    let r0 : Res.R := { gvk := id.gvk, name := id.name, ns := id.ns }
+    let out := Res.layers cs skip ls r0
+    let out2 : Out (Res.R × List Res.ResId) := match out with
+      | .ok r => (match r.prevIds with
+          | .ok p => .ok (r, p)
+          | .err c => .err c
+          | .panic c => .panic c)
+      | .err c => .err c
+      | .panic c => .panic c
+    return outToJson (fun (p : Res.R × List Res.ResId) => Json.mkObj [("cur", idToJson p.1.curId),
+      ("prev", Json.arr (p.2.map idToJson).toArray), ("prefixes", strsJ p.1.prefixes),
+      ("suffixes", strsJ p.1.suffixes)]) out2
+  | "legacysort" =>
+    let ids ← (← (a.getObjValD "ids").getArr?).toList.mapM idOfJson
+    let sorted := ids.mergeSort (Res.legacyLe Gen.orderFirst Gen.orderLast)
+    return Json.mkObj [("ok", Json.arr (sorted.map idToJson).toArray)]
+  | _ => throw s!"unknown res op {op}"
+
 def dispatch (comp : String) (args : Json) : Except String Json :=
   match comp.splitOn "." with
   | ["fns", op] => runFns op args
+  | ["res", op] => runRes op args
   | _ => throw s!"unknown component {comp}"
 
 partial def loop (hin hout : IO.FS.Stream) : IO Unit := do
